@@ -130,8 +130,11 @@ Definition wf_op_life (s : state) (o : op) : Prop :=
   match o with
   | OBegin t => now s < t
   | OGov cs =>
+      (* only a proposal that passes every per-key validator is executed; what those cannot see is the one
+         cross-field condition: the session delay never exceeds the subscription delay *)
+      forallb pchange_valid cs = true ->
       let s' := fold_left apply_pchange cs s in
-      par_ok (pars s') /\
+      p_sess_delay (pars s') <= p_sub_delay (pars s') /\
       (* governance does not lower the subscription delay below the remaining pending time of a
          live pending session (implied by DESIGN §5.3: sess_delay(i) <= sub_delay(j) for i <= j) *)
       (forall sid x, sessions s !! sid = Some x -> ss_status x = SPending -> ss_inactive_at x <= now s + p_sub_delay (pars s'))
